@@ -608,3 +608,73 @@ Section DiscFull.
       + intros e He. apply in_app_or in He as [He|[<-|[]]]; [right; apply Rr; exact He | left; reflexivity].
   Qed.
 End DiscFull.
+
+(* ---------------------------------------------------------------- retention independence across the discovery *)
+
+Section KeptDisc.
+  Variable U : list block.
+  Variable cfg : config.
+  Variable k : N.
+
+  Hypothesis Hnofail : c_fail_at cfg = None.
+  Hypothesis Hnew : f_new (c_filter cfg) = true.
+  Hypothesis Hundo : f_undo (c_filter cfg) = true.
+  Hypothesis Hhold : c_hold cfg = true.
+  Hypothesis Hincl : c_incl cfg = false.
+
+  Hypothesis U_id : forall b, In b U -> bid b <> 0 /\ bid b <> bparent b.
+  Hypothesis U_uniq : forall x y, In x U -> In y U -> bid x = bid y -> x = y.
+  Hypothesis U_up : forall x y, In x U -> In y U -> bparent x = bid y -> bnum y < bnum x.
+  Hypothesis D_decl : forall b, In b U -> decl_none U b.
+
+  Notation cfg' := (with_kept cfg k).
+
+  Lemma pre_kept s : PreInv U cfg s -> PreInv U cfg' s.
+  Proof. intros [A1 A2 A3 A4 A5 A6 A7 A8]. constructor; assumption. Qed.
+
+  Lemma kept_pre : forall h s fc, PreInv U cfg s -> PRel U fc s -> (forall b, In b h -> In b U) ->
+    fk_run cfg' s h = fk_run cfg s h.
+  Proof.
+    induction h as [|b h IH]; intros s fc HP HR Hh; [reflexivity|].
+    assert (Hb : In b U) by (apply Hh; left; reflexivity).
+    assert (Hh' : forall x, In x h -> In x U) by (intros x Hx; apply Hh; right; exact Hx).
+    pose proof (pre_step_x U cfg Hnofail Hnew Hundo Hhold Hincl U_id U_uniq U_up D_decl s fc b HP HR Hb) as C1.
+    pose proof (pre_step_x U cfg' Hnofail Hnew Hundo Hhold Hincl U_id U_uniq U_up D_decl s fc b (pre_kept s HP) HR Hb) as C2.
+    unfold QuietStep, EstabStep in C1, C2. cbn [c_first c_alltrig with_kept] in C2.
+    cbn [fk_run].
+    destruct C1 as [(s1 & Hst1 & HP1 & HR1 & Hk1)|(s1 & a & Fin & S' & M & f & Hst1 & HaU & Hfc1 & HI1 & HX1 & _ & Hl1 & He1 & Hls1 & Hlls1 & Hsto1 & Hf1 & HndM & HUM & Hk1)];
+    destruct C2 as [(s2 & Hst2 & HP2 & HR2 & Hk2)|(s2 & a2 & Fin2 & S2 & M2 & f2 & Hst2 & HaU2 & Hfc2 & HI2 & HX2 & _ & Hl2 & He2 & Hls2 & Hlls2 & Hsto2 & Hf2 & HndM2 & HUM2 & Hk2)].
+    - (* quiet in both runs: the same state *)
+      rewrite Hst1, Hst2. f_equal.
+      assert (s2 = s1).
+      { destruct Hk1 as [[-> E1]|[-> E1]]; destruct Hk2 as [[-> E2]|[-> E2]]; try reflexivity; exfalso.
+        - rewrite E1 in E2. apply (f_equal (@length block)) in E2. cbn [length] in E2. lia.
+        - rewrite E2 in E1. apply (f_equal (@length block)) in E1. cbn [length] in E1. lia. }
+      subst s2. exact (IH s1 _ HP1 HR1 Hh').
+    - exfalso. pose proof (pr_lib U _ _ HR1) as E. cbn [c_first c_alltrig with_kept] in Hfc2. rewrite Hfc2 in E.
+      cbn [fc_lib] in E. injection E as E _. exact (proj1 (U_id a2 HaU2) E).
+    - exfalso. pose proof (pr_lib U _ _ HR2) as E. rewrite Hfc1 in E.
+      cbn [fc_lib] in E. injection E as E _. exact (proj1 (U_id a HaU) E).
+    - (* established in both runs: the same LIB block, the same events, stores that differ under the LIB *)
+      cbn [c_first c_alltrig with_kept] in Hfc2. rewrite Hfc1 in Hfc2. injection Hfc2 as Eid Enum.
+      assert (a2 = a) by (apply U_uniq; auto). subst a2.
+      assert (Hsame : Fin2 = Fin /\ S2 = S' /\ M2 = M).
+      { destruct Hk1 as [(Ea & -> & -> & -> & _)|(Hlt & -> & _ & B1 & Hc1 & -> & ->)];
+          destruct Hk2 as [(Ea2 & -> & -> & -> & _)|(Hlt2 & -> & _ & B2 & Hc2 & -> & ->)]; try (exfalso; subst; lia); [auto|].
+        pose proof (chain_det _ _ _ _ _ Hc1 Hc2) as E. apply app_inj_tail in E as [-> _]. auto. }
+      destruct Hsame as (-> & -> & ->).
+      rewrite Hst1, Hst2. f_equal.
+      assert (HK : KRel U s1 s2).
+      { constructor.
+        - rewrite Hl1, Hl2. reflexivity.
+        - rewrite He1, He2. reflexivity.
+        - rewrite Hls1, Hls2. reflexivity.
+        - rewrite Hlls1, Hlls2. reflexivity.
+        - exists M, f, f2. split; [exact HndM|]. split; [exact HUM|]. split; [exact Hsto1|]. split; [exact Hsto2|].
+          split; [|rewrite Hls1; discriminate].
+          intros x Hx. rewrite Hl1 in Hx. cbn [R rn] in Hx. split; [apply Hf1 | apply Hf2]; exact Hx. }
+      apply (run_kept U (R a) cfg k Hnofail Hnew Hundo U_id U_uniq U_up
+               (R_id U U_id a HaU) (R_num U U_uniq a HaU) (R_up U U_up a HaU) (R_decl U U_uniq D_decl a HaU)
+               h s1 s2 Fin S' HI1 (proj2 (inv_kept U (R a) cfg k s2 Fin S') HI2) HX1 HX2 HK Hh').
+  Qed.
+End KeptDisc.
